@@ -642,6 +642,10 @@ class Connection:
                 raise OSError("handle is closed")
             if not p.msgs:
                 raise EOFError
+            if p.mid_read:
+                # another reader is between the chunks of a message: this one takes bytes out
+                # of its middle (what a lock around recv_bytes is there to prevent)
+                p.corrupt = True
             m = p.msgs[0]
             m[3] = m[2]          # drain what has been written so far
             if m[3] >= m[1]:
@@ -653,7 +657,11 @@ class Connection:
                 p.msgs.pop(0)
                 raise EOFError("got end of file during message")
             # truncated message: block until more bytes (or EOF) arrive
-            s.point(lambda: m[2] > m[3] or p.writers == 0, label=f"pipe.recv+:{p.id}")
+            p.mid_read += 1
+            try:
+                s.point(lambda: m[2] > m[3] or p.writers == 0, label=f"pipe.recv+:{p.id}")
+            finally:
+                p.mid_read -= 1
 
     def recv(self):
         return pickle.loads(self.recv_bytes())
